@@ -6,7 +6,8 @@ parser for GAP records written by kbmag) with the same offset arithmetic, and of
 Python slices `text[k:]` become `List.drop`; every function returns the value together with
 the offset *relative to the slice it was given*, exactly as the Python does.  `while` /
 `for` loops become recursion on the index with a fuel argument: every iteration and every
-call consumes one unit; `text.length + 2` is enough (each iteration advances the index).
+call consumes one unit; `2 * text.length + 4` is enough (each iteration advances the index,
+each nested call costs at most one extra unit per consumed character).
 No Mathlib imports.
 -/
 
@@ -180,7 +181,7 @@ def parseContents (fuel : Nat) (t : List Char) : R (GVal × Nat) := contentsLoop
 
 /-- `gap_parse.parse_record(text)` on a whole file -/
 def parseRecord (t : List Char) : R (List (List Char × GVal) × Nat) :=
-  recordLoop (t.length + 2) t 0 [] []
+  recordLoop (2 * t.length + 4) t 0 [] []
 
 /-! ### `kbmag_utils.build_dict(transitions, labels, to_filter=[0])` and `_from_gap_record` -/
 
